@@ -133,6 +133,14 @@ impl Sc for char {
         "(PDef (VChar 0))".into()
     }
 }
+impl Sc for uuid::Uuid {
+    fn g() -> String {
+        "(mkSt TUuid None)".into()
+    }
+    fn g_default() -> String {
+        "(PDef (VUuid [0;0;0;0;0;0;0;0;0;0;0;0;0;0;0;0]))".into()
+    }
+}
 impl Sc for Color {
     fn g() -> String {
         format!("(mkSt {} (Some {}))", G_COLOR, COLOR_NAME)
@@ -1016,7 +1024,7 @@ pub fn build_api() -> (ApiDescription<Ctx>, Ctx, BTreeMap<String, OpInfo>) {
     }
     reg_scalars!("str" => String, "u8" => u8, "u16" => u16, "u32" => u32, "u64" => u64,
         "i8" => i8, "i16" => i16, "i32" => i32, "i64" => i64, "bool" => bool, "char" => char,
-        "enum" => Color);
+        "enum" => Color, "uuid" => uuid::Uuid);
     reg!("qa", h_qa, Method::GET, JSON, "/qa", info(OK_J).q(spec_qa()));
     reg!("qb", h_qb, Method::POST, JSON, "/qb", info(CREATED_J).q(spec_qb()));
     reg!("qd", h_qd, Method::GET, JSON, "/qd", info(OK_J).q(spec_qd()));
